@@ -7,7 +7,7 @@
 (* automaton (S) of JUnit.tla -- informational, never a verdict -- as      *)
 (*    <<"DIVERGE", row id, feature, what>>.                                *)
 (*                                                                         *)
-(* row: id, prog <<[kind, parent, children, steps <<[cl_id, cl_layer]>>]>>,*)
+(* row: id, dup (scenarios share their name), names (per element), prog <<[kind, parent, children, steps <<[cl_id, cl_layer]>>]>>,*)
 (*  cfg [show_skipped, dry, retry (scenario_autoretry: a failing scenario   *)
 (*  runs a second time), fault_kbd (the hook faults raise                  *)
 (*  KeyboardInterrupt)], sw [show_skipped_always] (userdata switch of the *)
@@ -62,7 +62,27 @@ Obs(r, f) == LET file == FileOf(r, f) IN
              IF DiedAt(r) = f /\ ~file.exists THEN [crashed |-> TRUE, doc |-> NoDoc]
              ELSE [crashed |-> FALSE, doc |-> DocOf(file)]
 
-Verdicts(r) == LET m == ModelOf(r) IN UNION {Clauses(m, CfgOf(r), f, Obs(r, f)) : f \in Reported(r)}
+\* r.dup (prog dupnames: the scenarios of a feature share their name, a test case cannot be tied to ONE scenario):
+\* the test cases are matched as a multiset -- for every (name, status class) as many test cases as listed scenarios --,
+\* the counters equal the numbers of entries, and each test case is consistent in itself (entry kinds fit its status
+\* attribute, a failed / error one carries a failure / error entry)
+DupClauses(r, m, cfg, f, obs) ==
+   IF obs.crashed \/ ~obs.doc.exists \/ ~obs.doc.wellformed THEN Clauses(m, cfg, f, obs)
+   ELSE LET exp   == ExpectedOf(m, cfg, DocScenarios(m, f))
+            cases == obs.doc.cases
+            KeyS(s)  == <<r.names[s], Class(m.status[s])>>
+            KeyC(tc) == <<tc.name, Class(tc.status)>>
+            keys  == {KeyS(exp[k]) : k \in DOMAIN exp} \cup {KeyC(cases[k]) : k \in DOMAIN cases}
+            bad   == {key \in keys : Cardinality({k \in DOMAIN exp : KeyS(exp[k]) = key}) # Cardinality({k \in DOMAIN cases : KeyC(cases[k]) = key})}
+        IN (IF bad = {} THEN {}
+            ELSE {<<"C16.testcases", IF Len(cases) < Len(exp) THEN "missing" ELSE IF Len(cases) > Len(exp) THEN "extra" ELSE "multiset", f>>})
+           \cup CountersClause(obs.doc)
+           \cup UNION {LET tc == cases[k] IN
+                         (IF ~(KindsOf(tc) \subseteq Allowed(cfg, tc.status)) THEN {<<"C16.status", "entry_kind", f>>} ELSE {})
+                         \cup (IF Class(tc.status) \in {"failed", "error"} /\ ~Has(tc, "failure") /\ ~Has(tc, "error")
+                               THEN {<<"C16.problem_entry", "missing", f>>} ELSE {}) : k \in DOMAIN cases}
+Verdicts(r) == LET m == ModelOf(r) IN
+               UNION {IF r.dup THEN DupClauses(r, m, CfgOf(r), f, Obs(r, f)) ELSE Clauses(m, CfgOf(r), f, Obs(r, f)) : f \in Reported(r)}
 
 \* full conformance with the automaton (informational): problem entries and skipped entries only; whether the text of a
 \* step entry also mentions a hook (captured output of a raising step hook) is not predicted
@@ -78,7 +98,7 @@ Diverges(r) ==
        LET pred == FeatureReport(m, Show(r), f, RepairedCode)
            obs  == Obs(r, f) IN
        IF what = "crash" THEN pred.crashed # obs.crashed
-       ELSE ~pred.crashed /\ ~obs.crashed /\ (obs.doc.wellformed \/ ~obs.doc.exists) /\ NormDoc(pred.doc) # NormDoc(obs.doc)}
+       ELSE ~r.dup /\ ~pred.crashed /\ ~obs.crashed /\ (obs.doc.wellformed \/ ~obs.doc.exists) /\ NormDoc(pred.doc) # NormDoc(obs.doc)}
 
 Next == /\ i <= Len(Rows)
         /\ \A v \in Verdicts(Rows[i]) : PrintT(<<"VERDICT", Rows[i].id, v[1], v[2], v[3]>>)
